@@ -209,13 +209,48 @@ def joinLastStep (m : MStep) : Bool :=
 
 def joinLast (tr : List MStep) : Bool := tr.all joinLastStep
 
+/-- "every consumer of the previous generation has been shut down — committing its progress unless
+    the coordinator rejects the commit": a consumer is HARD-stopped (`consumerStop`: no final commit)
+    only (a) in a step that processes an eviction error (its commits would be rejected) or a fatal
+    (non-Kafka) error, at any site; (b) when the shutdown of a faulty consumer (one whose `shutdown()`
+    the environment made raise or fail: `faulty`) is attempted in this step, or a shutdown Deferred
+    fails (`consumerDown _ false`) — the code's documented fallback kills the rest of the batch.
+    Everything else must go through `consumerShutdown` and the consumer's own completion. -/
+def anyErrorOf : Ev → Option GErr
+  | .coordDone (.err e) | .metaDone (.err e) | .partsDone (.err e)
+  | .joinDone (.err e) | .syncDone (.err e) | .hbDone (.err e) | .consumerErr _ e => some e
+  | _ => none
+
+def isFatalErr : GErr → Bool
+  | .cancelled | .nonKafka => true
+  | _ => false
+
+def gracefulStep (faulty : List Nat) (m : MStep) : Bool :=
+  !m.obs.any (fun | .consumerStop _ => true | _ => false) ||
+    (match anyErrorOf m.ev with
+     | some e => isEviction e || isFatalErr e
+     | none => false) ||
+    (match m.ev with | .consumerDown _ false => true | _ => false) ||
+    m.obs.any (fun | .consumerShutdown c => faulty.contains c | _ => false)
+
+def gracefulFrom (faulty : List Nat) : List MStep → Bool
+  | [] => true
+  | m :: ms =>
+    let faulty' := match m.ev with
+      | .consumerQuirk c q => if m.obs != [.badOp] && q != .none then c :: faulty else faulty
+      | _ => faulty
+    gracefulStep faulty' m && gracefulFrom faulty' ms
+
+def gracefulDrain (tr : List MStep) : Bool := gracefulFrom [] tr
+
 /-- every C16 check, by name -/
 def checks : List (String × (List MStep → Bool)) :=
   [("fenced", fenced), ("startsCommitted", startsCommitted), ("joinAdopted", joinAdopted), ("joinAfterDrain", joinAfterDrain),
    ("joinNoRunning", joinNoRunning), ("evictionStopsFirst", evictionStopsFirst), ("oneJoin", oneJoin),
    ("heartbeatOnlyStable", heartbeatOnlyStable), ("afterStopOnlyLeave", afterStopOnlyLeave),
    ("noJoinAfterStopCalled", noJoinAfterStopCalled), ("startsWithJoinIds", startsWithJoinIds),
-   ("strictAfterStop", strictAfterStop), ("heartbeatIds", heartbeatIds), ("joinLast", joinLast)]
+   ("strictAfterStop", strictAfterStop), ("heartbeatIds", heartbeatIds), ("joinLast", joinLast),
+   ("gracefulDrain", gracefulDrain)]
 
 def failing (tr : List MStep) : List String := (checks.filter fun c => !c.2 tr).map (·.1)
 
